@@ -161,6 +161,23 @@ Example mode_changed_at_run_time :
   /\ dlaw_hist E [] 0%Z (init E) (drun E [] (init E) ops) = [].
 Proof. vm_compute. split; reflexivity. Qed.
 
+(* a default that is produced AFRESH each time it is needed (List / Dict / Instance(X, ()) defaults, a non-constant
+   _x_default): identities 1000, 1001, ... in order of appearance.  `del` reads the default back and stores it, so the new
+   value the handlers are told IS what a read returns right afterwards (law clause 6 on Delete, part of
+   law_holds_with_handlers_coming_and_going); the first assignment reports the default materialised as old *)
+Example default_produced_afresh :
+  let E := {| e_eq := fun a b => if a =? b then CTrue else CFalse; e_ne := fun a b => if a =? b then CFalse else CTrue;
+              e_validate := fun v => Some v; e_default := 0; e_kind := TNormal MEquality;
+              e_handlers := [mkHandler 1 StaticChanged false; mkHandler 10 Observe false]; e_store_original := false |} in
+  let ops := [DOp (Assign 1); DOp Delete; DOp Read; DOp (Assign 2); DOp Delete; DOp Delete] in
+  let st := with_fresh (init E) (Some 1000) in
+  map (fun p => (o_slot (snd p), map (fun c : call => (snd (fst c), snd c)) (o_calls (snd p)))) (drun E [] st ops)
+  = [(Some 1, [(OVal 1000, 1); (OVal 1000, 1)]); (Some 1001, [(OVal 1, 1001); (OVal 1, 1001)]); (Some 1001, []);
+     (Some 2, [(OVal 1001, 2); (OVal 1001, 2)]); (Some 1002, [(OVal 2, 1002); (OVal 2, 1002)]);
+     (Some 1003, [(OVal 1002, 1003); (OVal 1002, 1003)])]
+  /\ dlaw_hist E [] 0%Z st (drun E [] st ops) = [].
+Proof. vm_compute. split; reflexivity. Qed.
+
 (* Non-vacuity: on_trait_change handler 10 from the start; observe handler 30 registered after the first change; 31
    (object level) unregisters itself when called; 32 removes 30 when called (30 is still served for that change) and
    registers 33 (not served yet); then 10 is removed explicitly *)
